@@ -217,6 +217,13 @@ fn format_timestamp_function(
         Utc,
     };
 
+    // an invalid strftime item makes chrono's Display impl fail, which panics inside to_string()
+    if chrono::format::StrftimeItems::new(chrono_format).any(|item| item == chrono::format::Item::Error) {
+        return Err(tera::Error::msg(format!(
+            "Invalid timestamp format string: {chrono_format}"
+        )));
+    }
+
     let dt = DateTime::from_timestamp(timestamp as i64, 0)
         .ok_or_else(|| tera::Error::msg("Invalid timestamp"))?
         .with_timezone(&Utc);
